@@ -320,6 +320,39 @@ func checkShadowOnlyPending(p *core.Prog, r *core.Report) {
 		})
 		q := core.PathQuery{Fn: fn, CutEdge: func(e core.Edge) bool { return containsEdge(okEdges, e) }}
 		_, reach := q.CanReach(nil, func(x ssa.Instruction) bool { return x == c })
+		// ... and only behind a later stage that still has a job to run or running (Pending, Scheduled, Shadowed): a later
+		// stage that is Merging / PartialPresent / Completed got its data without producing this unit's
+		var nextOK []core.Edge
+		nNext := 0
+		core.Instrs(fn, func(in ssa.Instruction) {
+			ifi, isIf := in.(*ssa.If)
+			if !isIf {
+				return
+			}
+			for _, st := range []string{"UnitPending", "UnitScheduled", "UnitShadowed", "UnitMerging", "UnitPartialPresent", "UnitCompleted", "UnitNoOp"} {
+				onT, onF, okc := core.CondRelation(ifi.Cond, func(v ssa.Value) bool {
+					cc, ok := v.(*ssa.Call)
+					return ok && core.CommonCallee(cc.Common()) == getState && !(sameUnit(cc.Call.Args[1], unit) || sameExpr(cc.Call.Args[1], unit, 2))
+				}, func(v ssa.Value) bool {
+					kk, ok := v.(*ssa.Const)
+					return ok && kk.Value != nil && kk.Value.ExactString() == val[st]
+				})
+				if !okc {
+					continue
+				}
+				nNext++
+				allowed := st == "UnitPending" || st == "UnitScheduled" || st == "UnitShadowed"
+				if onT == core.OrdEQ && allowed {
+					nextOK = append(nextOK, core.Edge{From: ifi.Block(), Idx: 0})
+				}
+				if onF == core.OrdEQ && allowed {
+					nextOK = append(nextOK, core.Edge{From: ifi.Block(), Idx: 1})
+				}
+			}
+		})
+		q2 := core.PathQuery{Fn: fn, CutEdge: func(e core.Edge) bool { return containsEdge(nextOK, e) }}
+		_, reach2 := q2.CanReach(nil, func(x ssa.Instruction) bool { return x == c })
+		r.Check(nNext > 0 && !reach2, "C05.R1", "markShadowedUnits/next-stage-has-a-job", "a unit is shadowed only behind a later stage of the segment that is Pending, Scheduled or Shadowed (a job will still produce this unit's stores); never behind one that is already Merging, PartialPresent or Completed", "setState(unit, Shadowed) is reachable over a next-stage state other than Pending/Scheduled/Shadowed", p.Pos(c.Pos()))
 		r.Check(len(okEdges) > 0 && !reach, "C05.R1", "markShadowedUnits/only-pending", "a unit is relabelled Shadowed only when it was found Pending (or already Shadowed): a unit whose partial is present, being merged, or whose own job is running keeps its state", "setState(unit, Shadowed) is reachable for a unit in another state (only Completed and NoOp are excluded)", p.Pos(c.Pos()))
 	}
 }
